@@ -65,7 +65,11 @@ func (g *fpGen) lit(s string) {
 	g.e.emit("fp_rf %s", h)
 	g.e.emit("f64 %s", h)
 	g.e.emit("fp_dec %s", h)
-	g.e.emit("fp_strconv %s", h)
+	if intDigits(s) <= 800 {
+		// spec (round_ne) vs strconv; literals with more than 800 digits before the point are the
+		// known gap of decimal.set (see suite fp_gap) and are compared model-vs-code only
+		g.e.emit("fp_strconv %s", h)
+	}
 	g.stages(s)
 	if g.r.chance(1, 3) {
 		j := g.r.pick(fpJunk)
@@ -75,6 +79,16 @@ func (g *fpGen) lit(s string) {
 		g.e.emit("f64 %s", hs([]byte(w+s+j)))
 		g.e.emit("fp_dec %s", hs([]byte(s+j)))
 	}
+}
+
+// number of digits of the integer part, leading zeros not counted
+func intDigits(s string) int {
+	s = strings.TrimPrefix(s, "-")
+	n := 0
+	for n < len(s) && s[n] >= '0' && s[n] <= '9' {
+		n++
+	}
+	return len(strings.TrimLeft(s[:n], "0"))
 }
 
 // a possibly malformed byte string: prefix parsers and decimal.set only
@@ -262,7 +276,11 @@ func (g *fpGen) halfFamily(b uint64) {
 	if !hasPoint {
 		base += "."
 	}
-	for _, n := range []int{1, 2, 1 + g.r.intn(60), 1 + g.r.intn(60)} {
+	extra := []int{1, 2, 1 + g.r.intn(60), 1 + g.r.intn(60)}
+	if !g.thorough {
+		extra = []int{1 + g.r.intn(60)}
+	}
+	for _, n := range extra {
 		g.lit(g.sign() + base + strings.Repeat("0", n-1) + "1")
 		g.lit(g.sign() + base + strings.Repeat("0", n))
 		dn := bumpLast(mid, -1)
@@ -284,7 +302,7 @@ func (g *fpGen) randBits() uint64 {
 	case 1: // small subnormal
 		return g.r.next() & (1<<uint(1+g.r.intn(20)) - 1)
 	case 2: // around a power of two
-		return uint64(g.r.intn(2047))<<52 + uint64(g.r.intn(5)) - 2
+		return uint64(1+g.r.intn(2046))<<52 + uint64(g.r.intn(5)) - 2
 	case 3: // exponent near 0 (values near 1)
 		return uint64(1000+g.r.intn(100))<<52 | g.r.next()&(1<<52-1)
 	default:
@@ -333,6 +351,9 @@ func init() {
 		if thorough {
 			nlong = 48
 		}
+		if !thorough {
+			longs = []int{31, 100, 800, 801}
+		}
 		for k := 0; k < nlong; k++ {
 			for _, n := range longs {
 				d := g.digits(n)
@@ -366,10 +387,13 @@ func init() {
 		boundary := []uint64{0, 1, 2, 3, 1<<52 - 2, 1<<52 - 1, 1 << 52, 1<<52 + 1, 2<<52 - 1, 2 << 52,
 			2046<<52 | (1<<52 - 1), 2046<<52 | (1<<52 - 2), 2046 << 52, 1023 << 52, 1023<<52 - 1, 1075 << 52, 1076<<52 - 1,
 			0x4340000000000000, 0x433FFFFFFFFFFFFF, 0x4340000000000001}
+		if !thorough {
+			boundary = []uint64{0, 1<<52 - 1, 2046<<52 | (1<<52 - 1), 0x4340000000000000}
+		}
 		for _, b := range boundary {
 			g.halfFamily(b)
 		}
-		nh := 25
+		nh := 2
 		if thorough {
 			nh = 5000
 		}
@@ -379,7 +403,7 @@ func init() {
 
 		// ---- renderings of random floats
 		g.fam("float")
-		nf := 100
+		nf := 50
 		if thorough {
 			nf = 30000
 		}
@@ -408,7 +432,7 @@ func init() {
 		g.fam("zeros")
 		for z := 0; z <= 30; z++ {
 			for n := 1; n <= 24; n++ {
-				if !thorough && (z+n)%6 != 0 && z+n != 19 && z+n != 20 {
+				if !thorough && (z+n)%12 != 0 && z+n != 19 && z+n != 20 {
 					continue
 				}
 				d := g.digits(n)
@@ -419,14 +443,14 @@ func init() {
 				g.lit(d + "." + strings.Repeat("0", z+1))
 				g.lit(d + "." + strings.Repeat("0", z) + "1")
 			}
-			g.lit("0." + strings.Repeat("0", z))
-			g.lit("-0." + strings.Repeat("0", z) + "e5")
+			g.lit("0." + strings.Repeat("0", z+1))
+			g.lit("-0." + strings.Repeat("0", z+1) + "e5")
 			g.lit("0e" + strings.Repeat("0", z) + "7")
 		}
 
 		// ---- per-table-row probes
 		g.fam("rows")
-		per := 2
+		per := 1
 		if thorough {
 			per = 150
 		}
@@ -554,7 +578,7 @@ func init() {
 		// ---- 100 kB literals with moderate value (exponent saturation in the code)
 		g.fam("huge")
 		zeros := strings.Repeat("0", 99999)
-		for _, s := range []string{
+		for i, s := range []string{
 			"0." + zeros + "1e100000",        // = 1, the code returns 0 (see suite fp_gap)
 			"0." + zeros + "15e100001",       // = 15, the code returns 0
 			"1" + zeros + "0e-100000",        // = 1
@@ -562,6 +586,9 @@ func init() {
 			"1" + strings.Repeat("0", 20000), // 1e20000
 			"0." + strings.Repeat("0", 20000) + "1",
 		} {
+			if !thorough && i != 0 && i != 3 {
+				continue
+			}
 			h := hs([]byte(s))
 			g.e.emit("fp_parse %s", h)
 			g.e.emit("f64 %s", h)
@@ -582,6 +609,17 @@ func init() {
 		zeros := strings.Repeat("0", 99999)
 		for _, s := range append([]string{"0." + zeros + "1e100000", "0." + zeros + "15e100001"}, fpGapCap800...) {
 			e.emit("fp_strconv %s", hs([]byte(s)))
+		}
+	}
+}
+
+func init() {
+	// C04 known findings as direct property cases: f64 (implementation) vs the specification
+	// (driver --spec) on the literals where they are known to differ
+	suites["c04gap"] = func(e *emitter, r *rng, thorough bool) {
+		zeros := strings.Repeat("0", 99999)
+		for _, s := range append([]string{"0." + zeros + "1e100000"}, fpGapCap800...) {
+			e.emit("f64 %s", hs([]byte(s)))
 		}
 	}
 }
